@@ -137,3 +137,29 @@ def extract(cfgs, repo=REPO, keep=False):
         if not keep:
             shutil.rmtree(out_dir, ignore_errors=True)
     return allfacts, meta
+
+
+def frame_sizes(repo=REPO):
+    """Thorough tier (O): stack frame sizes of the monomorphised functions of the `ipp` lib (sync-only configuration),
+    read from the object code with the sysroot's llvm-readobj. Nothing is run. Returns [(demangled name, bytes)]."""
+    import re
+    target_dir = os.path.join(CACHE, "target-O")
+    os.makedirs(target_dir, exist_ok=True)
+    _forget_members(target_dir)
+    for f in glob.glob(os.path.join(target_dir, "debug", "deps", "ipp-*.o")):
+        os.remove(f)
+    env = base_env()
+    env["CARGO_TARGET_DIR"] = target_dir
+    cmd = ["cargo", "+nightly", "rustc", "-p", "ipp", "--lib", "--offline", "--no-default-features", "--",
+           "-Zemit-stack-sizes", "--emit=obj", "-Ccodegen-units=1", "-Awarnings"]
+    r = subprocess.run(cmd, cwd=repo, env=env, stdout=subprocess.PIPE, stderr=subprocess.STDOUT, text=True)
+    if r.returncode != 0:
+        raise ExtractError("cannot emit object code for frame sizes:\n" + r.stdout[-3000:])
+    objs = glob.glob(os.path.join(target_dir, "debug", "deps", "ipp-*.o"))
+    if len(objs) != 1:
+        raise ExtractError("expected one ipp object file, found %s" % objs)
+    readobj = glob.glob(os.path.join(sysroot(), "lib", "rustlib", "*", "bin", "llvm-readobj"))
+    if not readobj:
+        raise ExtractError("llvm-readobj not found in the nightly sysroot")
+    out = subprocess.check_output([readobj[0], "--stack-sizes", "--demangle", objs[0]], text=True, stderr=subprocess.DEVNULL)
+    return [(n, int(s, 16)) for n, s in re.findall(r"Functions: \[(.*?)\]\s*\n\s*Size: (0x[0-9a-fA-F]+)", out)]
